@@ -97,8 +97,13 @@ class Particle:
                 return []
             if value.type is not ValueType.ELEMENT or not value.is_array:
                 raise ValueError('{} must be an element array!')
+            # The element name is stored in Operator.name, it is not an option.
             return [
-                Operator(ele.name, ele.pop('functionName').val_str, copy.deepcopy(dict(ele)))
+                Operator(ele.name, ele.pop('functionName').val_str, {
+                    key: copy.deepcopy(attr)
+                    for key, attr in ele.items()
+                    if key != 'name'
+                })
                 for ele in value.iter_elem()
             ]
 
@@ -120,10 +125,11 @@ class Particle:
                     Child(subelem.name) for subelem
                     in child_attr.iter_elem()
                 ]
-            # Everything else.
+            # Everything else, except for the name which is stored in Particle.name.
             options = {
                 value.name.casefold(): copy.deepcopy(value)
                 for value in elem.values()
+                if value.name.casefold() != 'name'
             }
 
             systems[elem.name.casefold()] = Particle(
